@@ -186,7 +186,9 @@ class Cleaner(object):
             # Store it
             try:
                 if raw_data:
-                    if content:
+                    # lines read from the file keep their line break, a line
+                    # holding nothing else is blank
+                    if content and any(l.strip() for l in content):
                         with open(_file, 'wb') as fh:
                             for line in content:
                                 fh.write(line.encode('utf-8') if six.PY3 else line)
